@@ -1,5 +1,6 @@
 //! AST -> template source text, parameterised by the delimiter set.
 use super::ast::*;
+use crate::model::ws::{Marker, Piece};
 use serde::{Deserialize, Serialize};
 
 #[derive(Clone, Debug, Serialize, Deserialize, PartialEq)]
@@ -266,36 +267,222 @@ fn params(p: &[(String, Option<Expr>)]) -> String {
         .join(", ")
 }
 
+/// Free choices of the styled printer (whitespace markers, spacing inside tags, inserted
+/// whitespace that a `-` marker removes again, comments between statements, text written as raw
+/// blocks, block tags written as line statements), driven by a byte tape so that a case shrinks
+/// towards the plain spelling (all zeroes = exactly what the unstyled printer writes).
+#[derive(Clone, Debug)]
+pub struct Style {
+    pub tape: Vec<u8>,
+    pub pos: usize,
+    /// block tags may be written as line statements (needs a line statement prefix)
+    pub line_mode: bool,
+}
+
+impl Style {
+    pub fn new(tape: Vec<u8>, line_mode: bool) -> Style {
+        Style { tape, pos: 0, line_mode }
+    }
+    fn byte(&mut self) -> u8 {
+        if self.tape.is_empty() {
+            return 0;
+        }
+        let b = self.tape[self.pos % self.tape.len()];
+        self.pos += 1;
+        b
+    }
+    /// true with roughly `percent` % (never for a zero byte)
+    fn chance(&mut self, percent: u8) -> bool {
+        let b = self.byte() % 100;
+        b >= 100 - percent.min(100)
+    }
+    fn marker(&mut self) -> Marker {
+        match self.byte() % 10 {
+            0..=5 => Marker::None,
+            6..=8 => Marker::Minus,
+            _ => Marker::Plus,
+        }
+    }
+    fn spacing(&mut self, tight_ok: bool, newline_ok: bool) -> &'static str {
+        match self.byte() % 20 {
+            0..=11 => " ",
+            12..=14 => {
+                if tight_ok {
+                    ""
+                } else {
+                    " "
+                }
+            }
+            15..=16 => "  ",
+            17 => "\t",
+            _ => {
+                if newline_ok {
+                    "\n"
+                } else {
+                    " "
+                }
+            }
+        }
+    }
+    fn blank(&mut self) -> &'static str {
+        [" ", "\n", "  ", "\t", " \n ", "\r\n", "\n\n", "\u{a0}"][self.byte() as usize % 8]
+    }
+}
+
+#[derive(Clone, Copy, PartialEq, Eq)]
+enum TagKind {
+    Block,
+    Var,
+    Comment,
+}
+
 pub struct Printer<'a> {
     pub syn: &'a Syntax,
     pub out: String,
+    /// styled mode: the free choices, and the lexical pieces written so far; a text piece
+    /// carries the index (in source order) of the text statement it came from, `None` for
+    /// whitespace the printer inserted itself
+    pub style: Option<Style>,
+    pub pieces: Vec<(Piece, Option<usize>)>,
+    text_counter: usize,
+    pending_right_minus: bool,
+    at_line_start: bool,
 }
 
-impl Printer<'_> {
+fn tight_start(inner: &str) -> bool {
+    inner.chars().next().is_some_and(|c| c.is_ascii_alphanumeric() || c == '_' || c == '"')
+}
+
+fn tight_end(inner: &str) -> bool {
+    inner.chars().last().is_some_and(|c| c.is_ascii_alphanumeric() || c == '_' || c == '"')
+}
+
+impl<'a> Printer<'a> {
+    pub fn new(syn: &'a Syntax, style: Option<Style>) -> Printer<'a> {
+        Printer { syn, out: String::new(), style, pieces: vec![], text_counter: 0, pending_right_minus: false, at_line_start: true }
+    }
+
+    fn push_piece(&mut self, p: Piece, id: Option<usize>) {
+        self.out.push_str(p.src());
+        self.pieces.push((p, id));
+    }
+
+    fn prev_is_text(&self) -> bool {
+        matches!(self.pieces.last(), Some((Piece::Text(_), _)))
+    }
+
     fn tag(&mut self, inner: &str) {
-        self.out.push_str(&self.syn.block_start);
-        self.out.push(' ');
-        self.out.push_str(inner);
-        self.out.push(' ');
-        self.out.push_str(&self.syn.block_end);
+        self.emit_tag(TagKind::Block, inner, true);
+    }
+
+    fn emit_tag(&mut self, kind: TagKind, inner: &str, may_be_line: bool) {
+        let (start, end) = match kind {
+            TagKind::Block => (&self.syn.block_start, &self.syn.block_end),
+            TagKind::Var => (&self.syn.var_start, &self.syn.var_end),
+            TagKind::Comment => (&self.syn.comment_start, &self.syn.comment_end),
+        };
+        let Some(style) = self.style.as_mut() else {
+            // the plain spelling
+            self.out.push_str(start);
+            if kind != TagKind::Comment {
+                self.out.push(' ');
+            }
+            self.out.push_str(inner);
+            if kind != TagKind::Comment {
+                self.out.push(' ');
+            }
+            self.out.push_str(end);
+            return;
+        };
+        // a block tag that owns its line, written as a line statement
+        if kind == TagKind::Block && may_be_line && style.line_mode && self.at_line_start && style.chance(60) {
+            if let Some(prefix) = &self.syn.line_statement_prefix {
+                let lead = ["", "  ", "\t", " "][style.byte() as usize % 4];
+                let gap = if style.chance(15) { "" } else { " " };
+                let trail = ["", " ", "  \t"][style.byte() as usize % 3];
+                let nl = if style.chance(25) { "\r\n" } else { "\n" };
+                let src = format!("{lead}{prefix}{gap}{inner}{trail}{nl}");
+                self.pending_right_minus = false;
+                self.at_line_start = true;
+                self.push_piece(Piece::Tag { block_like: true, inert: true, left: Marker::None, right: Marker::None, src }, None);
+                return;
+            }
+        }
+        let left = style.marker();
+        let right = style.marker();
+        let newline_ok = !style.line_mode;
+        let sp1 = style.spacing(kind == TagKind::Comment || tight_start(inner), newline_ok);
+        let sp2 = style.spacing(kind == TagKind::Comment || tight_end(inner), newline_ok);
+        let insert = (left == Marker::Minus || self.pending_right_minus) && style.chance(50);
+        let blank = style.blank();
+        let src = format!("{start}{}{sp1}{inner}{sp2}{}{end}", left.text(), right.text());
+        if insert && !self.prev_is_text() {
+            // whitespace between two tags (or at the very start) that a `-` marker next to it removes
+            self.push_piece(Piece::Text(blank.to_string()), None);
+        }
+        self.pending_right_minus = right == Marker::Minus;
+        self.at_line_start = false;
+        self.push_piece(Piece::Tag { block_like: kind != TagKind::Var, inert: false, left, right, src }, None);
+    }
+
+    fn text(&mut self, t: &str) {
+        let id = self.text_counter;
+        self.text_counter += 1;
+        let Some(style) = self.style.as_mut() else {
+            self.out.push_str(t);
+            return;
+        };
+        if t.is_empty() {
+            return;
+        }
+        // a text run may be written as a raw block
+        let rawable = !style.line_mode && !t.contains(self.syn.block_start.as_str());
+        if rawable && style.chance(10) {
+            self.emit_tag(TagKind::Block, "raw", false);
+            // (raw content follows its opening tag directly: nothing is inserted in between)
+            self.push_piece(Piece::Text(t.to_string()), Some(id));
+            let save = self.pending_right_minus;
+            self.pending_right_minus = false;
+            self.emit_tag(TagKind::Block, "endraw", false);
+            let _ = save;
+            return;
+        }
+        let visible_tail_nl = if self.pending_right_minus { t.trim_start().ends_with('\n') } else { t.ends_with('\n') };
+        self.at_line_start = visible_tail_nl;
+        self.pending_right_minus = false;
+        self.push_piece(Piece::Text(t.to_string()), Some(id));
+    }
+
+    /// between two statements: now and then a comment (it renders nothing)
+    fn maybe_comment(&mut self) {
+        let Some(style) = self.style.as_mut() else { return };
+        if !style.chance(8) {
+            return;
+        }
+        if style.line_mode && self.at_line_start {
+            if let Some(prefix) = &self.syn.line_comment_prefix {
+                let lead = ["", "  ", "\t"][style.byte() as usize % 3];
+                let src = format!("{lead}{prefix} note\n");
+                self.pending_right_minus = false;
+                self.at_line_start = true;
+                self.push_piece(Piece::Tag { block_like: true, inert: true, left: Marker::None, right: Marker::None, src }, None);
+                return;
+            }
+        }
+        self.emit_tag(TagKind::Comment, "c", false);
     }
 
     pub fn stmts(&mut self, body: &[Stmt]) {
         for s in body {
+            self.maybe_comment();
             self.stmt(s);
         }
     }
 
     pub fn stmt(&mut self, s: &Stmt) {
         match s {
-            Stmt::Text(t) => self.out.push_str(t),
-            Stmt::Emit(e) => {
-                self.out.push_str(&self.syn.var_start);
-                self.out.push(' ');
-                self.out.push_str(&expr(e));
-                self.out.push(' ');
-                self.out.push_str(&self.syn.var_end);
-            }
+            Stmt::Text(t) => self.text(t),
+            Stmt::Emit(e) => self.emit_tag(TagKind::Var, &expr(e), false),
             Stmt::If { branches, else_ } => {
                 for (i, (c, b)) in branches.iter().enumerate() {
                     self.tag(&format!("{} {}", if i == 0 { "if" } else { "elif" }, expr(c)));
@@ -424,26 +611,30 @@ impl Printer<'_> {
                 self.tag(&format!("from {} import {n}", expr(name)));
             }
             Stmt::Raw(t) => {
-                self.tag("raw");
+                // (only the plain printer is used for programs with raw statements)
+                self.emit_tag(TagKind::Block, "raw", false);
                 self.out.push_str(t);
-                self.tag("endraw");
+                self.emit_tag(TagKind::Block, "endraw", false);
             }
-            Stmt::Comment(t) => {
-                self.out.push_str(&self.syn.comment_start);
-                self.out.push_str(t);
-                self.out.push_str(&self.syn.comment_end);
-            }
+            Stmt::Comment(t) => self.emit_tag(TagKind::Comment, t, false),
         }
     }
 }
 
 pub fn template(body: &[Stmt], syn: &Syntax) -> String {
-    let mut p = Printer {
-        syn,
-        out: String::new(),
-    };
+    let mut p = Printer::new(syn, None);
     p.stmts(body);
     p.out
+}
+
+/// The styled spelling of a program: its lexical pieces (concatenated they are the source text)
+/// with, for every text piece, the index of the text statement (in source order) it spells.
+/// Text statements must be merged (no two adjacent) for the whitespace rules to be stated per
+/// statement.
+pub fn template_styled(body: &[Stmt], syn: &Syntax, style: Style) -> (String, Vec<(Piece, Option<usize>)>) {
+    let mut p = Printer::new(syn, Some(style));
+    p.stmts(body);
+    (p.out, p.pieces)
 }
 
 pub fn template_default(body: &[Stmt]) -> String {
